@@ -1,6 +1,6 @@
 \* vacuity guard: restoring the working directory only when fetching succeeded must violate Converges / AtHomeWhenIdle
-CONSTANTS MaxEdits = 3  RestorePolicy = "on_success"
+CONSTANTS MaxEdits = 3  RestorePolicy = "on_success"  ConfigPolicy = "fresh"
 INIT Init
 NEXT Next
-INVARIANTS Converges AtHomeWhenIdle
+INVARIANTS Converges AtHomeWhenIdle UnconfiguredUntouched
 CHECK_DEADLOCK FALSE
